@@ -291,3 +291,62 @@ func Sample(cats []*cat.Catalog, seed int64, k int) []*cat.Catalog {
 	}
 	return out
 }
+
+// Keys is the key-identity motif: three constructors chosen from templates that provide one
+// concrete type plainly, named, in a group, or through As under one or two interfaces (in both
+// orders), placed in the root or a child (with Export), with consumers of every key. Duplicate
+// detection, As sharing and the separation of plain / named / grouped keys are all exercised.
+func Keys(opts []cat.Opts, cb bool) []*cat.Catalog {
+	as := func(ct string, ks ...string) cat.Result { return cat.Result{Ks: ks, M: "one", CT: ct} }
+	templates := []func() []cat.Result{
+		func() []cat.Result { return []cat.Result{one("T0")} },
+		func() []cat.Result { return []cat.Result{one("T0/n")} },
+		func() []cat.Result { return []cat.Result{{Ks: []string{"T0@g"}, M: "grp"}} },
+		func() []cat.Result { return []cat.Result{as("T0", "I0")} },
+		func() []cat.Result { return []cat.Result{as("T1", "I0", "I1")} },
+		func() []cat.Result { return []cat.Result{as("T2", "I1", "I0")} },
+		func() []cat.Result { return []cat.Result{as("T1", "I1")} },
+		func() []cat.Result { return []cat.Result{as("T0", "I0/n")} },
+		func() []cat.Result { return []cat.Result{one("T0"), one("T0/n")} },
+		func() []cat.Result { return []cat.Result{one("I1")} },
+	}
+	pls := []Place{{"r", false}, {"a", false}, {"a", true}}
+	var out []*cat.Catalog
+	n := len(templates)
+	for x := 0; x < n; x++ {
+		for y := x; y < n; y++ {
+			for z := y; z < n; z++ {
+				if x == z && x != 0 && x != 3 {
+					continue
+				}
+				for pi := 0; pi < 27; pi++ {
+					if (x*7+y*3+z+pi)%3 != 0 {
+						continue // thin out: one third of the placements per triple
+					}
+					c := &cat.Catalog{Parent: map[string]string{"r": "", "a": "r"}, Fns: map[string]*cat.Fn{}}
+					for j, t := range []int{x, y, z} {
+						p := pls[(pi/pow3(j))%3]
+						f := ctor(p, nil, templates[t]()...)
+						if len(f.Rs) == 1 && f.Rs[0].CT == "" && j%2 == 0 {
+							f.Enc.ViaOpt = true
+						}
+						c.Fns[fmt.Sprintf("c%d", j+1)] = f
+					}
+					c.Fns["i1"] = inv(par("I0", "req", 0), par("I1", "opt", 1))
+					c.Fns["i2"] = inv(par("T0", "opt", 1), par("T0/n", "opt", 1), par("T0@g", "grp", 1), par("I0/n", "opt", 1))
+					c.Note = fmt.Sprintf("keys %d,%d,%d pl=%d", x, y, z, pi)
+					out = append(out, finish(c, opts, cb))
+				}
+			}
+		}
+	}
+	return out
+}
+
+func pow3(j int) int {
+	p := 1
+	for ; j > 0; j-- {
+		p *= 3
+	}
+	return p
+}
